@@ -633,6 +633,31 @@ func (e *GenEnv) build(s *GenSpec) *Built {
 			return len(tr.Kids) <= 4
 		}
 		return &Built{G: node, Desc: s.K, Check: func(v any) F { return F{"c": "pred", "ok": distinct(v)} }}
+	case "FilterSiblings": // two generators derived (one more Filter each) from one chain of MinLen filters: the first must keep ITS predicate
+		base := rapid.IntRange(0, 100000)
+		for j := 0; j < optInt(s.MinLen, 0); j++ {
+			m := 2*j + 3
+			r := j
+			base = base.Filter(func(v int) bool { return v%m != r })
+		}
+		first := base.Filter(func(v int) bool { return v%2 == 0 })
+		_ = base.Filter(func(v int) bool { return v%2 == 1 }) // the sibling, derived afterwards
+		return &Built{G: first.AsAny(), Desc: s.K, Check: func(v any) F {
+			i, ok := v.(int)
+			return F{"c": "pred", "ok": ok && i%2 == 0}
+		}}
+	case "MapSampled": // Map over SampledFrom with a function that makes a new value every time: every draw gets its own
+		gm := rapid.Map(rapid.SampledFrom([]int{1, 2, 3}), func(i int) []any { userCallback(); return []any{i, i + 10} })
+		return &Built{G: gm.AsAny(), Desc: s.K, Check: func(v any) F {
+			p, ok := v.([]any)
+			good := ok && len(p) == 2
+			if good {
+				a, _ := p[0].(int)
+				b, _ := p[1].(int)
+				good = a >= 1 && a <= 3 && b == a+10
+			}
+			return F{"c": "pred", "ok": good}
+		}}
 	case "FilterChain": // IntRange(0, 100000) with MinLen Filter calls chained on the typed generator; Derive(k) chains one more, different for every k
 		base := rapid.IntRange(0, 100000)
 		for j := 0; j < optInt(s.MinLen, 0); j++ {
